@@ -52,6 +52,9 @@ CHECKS = {
     "C09": ("proof: Lean theorems over all move tables/cycle counts/steps/scripts (yield_length, yield_due, yield_min_count, zero_weight_never_free, free_slot_measure, addMove_inv, step_history_length) on a hand-written model of add_move/yield_moves/step over a scripted random oracle, tied to the code by scripted-generator correspondence, a numpy-twin test of the oracle and a real-PCG64 frequency oracle",
             "§6 C09", "Lean 4 theorems by induction on the cycle loop + counting over distinct slots; differential correspondence with ScriptedRNG",
             "numpy Generator modelled as an oracle (uniform draws, inverse-CDF choice, distinct replace=False sample); weights are rationals"),
+    "C01": ("proof (partial by nature): Lean theorems over the reals: reversibility of the Metropolis/Hastings kernel on any finite state space (metropolis/hastings_detailed_balance, detailed_balance_stationary, stationary_forever, kernel_markov, also for the executable model), accept_probability (Lebesgue measure of the accepting draws = min(1,exp e)), the model's exponents are log-ratios of the textbook densities (canonical/hamiltonian/isobaric_ratio, gc_ratio, gc_pair_inverse, gc_detailed_balance in scaled and configuration-density form, gc_poisson_ratio), finite-skeleton chains built from Crit.* keep the textbook densities (canonical/isobaric/gc_chain_stationary, hypotheses discharged by the cited C10/C03 theorems), and the closed-form averages (gamma_mean => (N+1)kT/P, dipole_mean = coth x - 1/x, harmonic_energy_3N = (3N/2)kT, poisson_of_ratio + mean + variance); tied to the code by the C02/C10/C03 correspondences and by the detailed-balance residual measured to 1e-8 on the real moves/criteria/drivers",
+            "§6 C01", "Lean 4 + Mathlib (Finset sums, Gamma/Gaussian integrals, FTC, Fubini, HasSum) + acceptance probabilities of the real criteria by bisection on a scripted uniform + fixed-seed srun() ensemble runs with batch-means error bars (6 sigma on three seeds)",
+            "the limit of the chain is not exhibited: irreducibility/aperiodicity, convergence of finite runs, PCG64 quality, Haar-uniformity of the normalised Gaussian quaternion not verified; Lean does not identify the Python chain with a Fintype kernel (modelling step)"),
 }
 
 NOT_APPLICABLE = {}
